@@ -1,6 +1,8 @@
 package operators
 
 import (
+	"math"
+	"math/big"
 	"strings"
 
 	"github.com/nyaruka/goflow/envs"
@@ -103,6 +105,13 @@ var Divide = numericalBinary(func(env envs.Environment, num1 *types.XNumber, num
 //
 // @operator exponent "^"
 var Exponent = numericalBinary(func(env envs.Environment, num1 *types.XNumber, num2 *types.XNumber) types.XValue {
+	// raising to an integral power multiplies the decimal exponent of the base by that power, and the decimal
+	// library panics when the product doesn't fit its 32-bit exponent, e.g. 0.001 ^ 999999999
+	resultExp := new(big.Int).Mul(big.NewInt(int64(num1.Native().Exponent())), num2.Native().BigInt())
+	if !resultExp.IsInt64() || resultExp.Int64() < math.MinInt32 || resultExp.Int64() > math.MaxInt32 {
+		return types.NewXErrorf("number value out of range")
+	}
+
 	return types.NewXNumber(num1.Native().Pow(num2.Native()))
 })
 
